@@ -61,7 +61,15 @@ def handle (toks : List String) : Option String :=
     let vec ← (if vec == "v" || vec == "V" then some true else if vec == "s" || vec == "S" then some false else none)
     let rs ← parseList parseREv rs
     let ws ← parseList parseWEv ws
-    let prog ← parseList parseAct prog
+    -- `h` = every sender handle is dropped: from then on the outbound channel reports "closed"
+    -- (`Ready(None)`) instead of "empty" (`Pending`); both make the write loop fall through to the read
+    -- side, so the model has nothing to do for it; sends written after an `h` cannot happen (there is no
+    -- handle left) and are skipped on both sides
+    let toks := prog.splitOn ","
+    let before := toks.takeWhile (· != "h")
+    let after := (toks.dropWhile (· != "h")).filter (fun t => t == "p")
+    let kept := before ++ after
+    let prog ← parseList parseAct (if kept.isEmpty then "-" else ",".intercalate kept)
     let c : Conn := { vec := vec, w := { ws := ws }, rs := rs }
     let (trace, c') := runProg c prog
     pure (",".intercalate (trace.map showItem) ++ " w=" ++ toHex c'.w.written ++ " f=" ++ toString c'.w.flushes
